@@ -8,6 +8,10 @@
 #include "base/objectlock.hpp"
 #include "base/array.hpp"
 #include "base/dictionary.hpp"
+#include "base/json.hpp"
+#include "base/serializer.hpp"
+#include "base/configobject.hpp"
+#include <algorithm>
 #include "icinga/timeperiod.hpp"
 #include "icinga/legacytimeperiod.hpp"
 #include <ctime>
@@ -147,10 +151,10 @@ VOP(tp_mk)
 	Out(o.str());
 }
 
-// tp_new name=<n> [prefer=0|1] [inc=a,b] [exc=c]
-VOP(tp_new)
+namespace {
+// a TimePeriod object as the config compiler leaves it (registered, not yet activated)
+TpFix MakeTp(const std::string& name, const Args& a)
 {
-	std::string name = a.str("name");
 	TpFix f;
 	f.tp = new TimePeriod();
 	f.tp->SetName(RealName(name), true);
@@ -168,8 +172,41 @@ VOP(tp_new)
 	f.tp->SetIncludes(inc, true);
 	f.tp->SetExcludes(exc, true);
 	f.tp->Register();
-	l_Tp[name] = f;
+	return f;
+}
+}
+
+// tp_new name=<n> [prefer=0|1] [inc=a,b] [exc=c]
+VOP(tp_new)
+{
+	std::string name = a.str("name");
+	l_Tp[name] = MakeTp(name, a);
 	l_Order.push_back(name);
+}
+
+// tp_reload name=<n> [prefer=0|1] [inc=a,b] [exc=c] : the daemon is restarted with a (possibly edited) configuration - what
+// happens to ONE period: its state attributes go through the state file (the record ConfigObject::DumpObjects writes:
+// JsonEncode of { type, name, update = Serialize(object, FAState) }), the old object is gone, a NEW object of the same name
+// is built from the new definition (the tp_range / tp_own lines that follow) and the REAL ConfigObject::RestoreObject puts the
+// saved segments / valid_begin / valid_end into it (JsonDecodeTrusted + Deserialize(.., FAState)).  The object is not started
+// (tp_start does that); it takes its place at the end of the creation order.
+VOP(tp_reload)
+{
+	std::string name = a.str("name");
+	TpFix& old = Get(a);
+	String json = JsonEncode(new Dictionary({
+		{ "type", "TimePeriod" },
+		{ "name", old.tp->GetName() },
+		{ "update", Serialize(old.tp, FAState) }
+	}));
+	old.tp->SetActive(false, true);
+	old.tp->Unregister();
+	l_Tp.erase(name);
+	l_Order.erase(std::remove(l_Order.begin(), l_Order.end(), name), l_Order.end());
+	l_Tp[name] = MakeTp(name, a);
+	l_Order.push_back(name);
+	ConfigObject::RestoreObject(json, FAState);
+	Out(StateLine(name));
 }
 
 // tp_own name=<n> segs=b-e,b-e : what the (harness) update function returns from now on
@@ -220,14 +257,19 @@ VOP(tp_upd)
 	Out(StateLine(a.str("name")));
 }
 
-// tp_start name=<n> : what TimePeriod::Start() does with the period under the virtual clock (pre-fill the next 24 hours);
-// the period counts as active from now on (the timer handler skips inactive objects)
+// tp_start name=<n> : activation of the period under the virtual clock, the way ConfigItem::ActivateItems /
+// ConfigObject::Activate do it: PreActivate (active = true), then the REAL TimePeriod::Start() under the object's lock.
+// Start() also creates the process-wide 5-minute update timer on its first call; its expiry time is taken from the
+// virtual clock (year 2033 and later) while the timer thread waits on the system clock, so it never fires on its own -
+// tp_timer calls the handler.
 VOP(tp_start)
 {
 	TpFix& f = Get(a);
-	double now = Utility::GetTime();
 	f.tp->SetActive(true, true);
-	f.tp->UpdateRegion(now, now + 24 * 3600, true);
+	{
+		ObjectLock olock(f.tp);
+		f.tp->Start(false);
+	}
 	Out(StateLine(a.str("name")));
 }
 
